@@ -735,7 +735,7 @@ class Interp:
         if obj in (int, str, bytes, dict, list, tuple, set, bytearray, float):
             return getattr(obj, attr)
         if isinstance(obj, (Host, EnumMember)) or isinstance(
-            obj, (list, tuple, dict, str, set, frozenset, int, bool, range, bytes, bytearray)
+            obj, (list, tuple, dict, str, set, frozenset, int, bool, range, bytes, bytearray, float)
         ):
             try:
                 return getattr(obj, attr)
